@@ -1,4 +1,29 @@
-(* C18 — placeholder (extended below). *)
-From Astro Require Import Base TzModel.
-Theorem C18_placeholder : scan_rev [] 0 = 0. Proof. exact eq_refl. Qed.
-Print Assumptions C18_placeholder.
+(* C18 — the timezone reader returns the UTC offset the TZif data defines per instant.
+   Specification: TzSpec.spec_lookup (latest transition at or before t; after the last one the footer rule, with
+   rule dates Jn / n / Mm.w.d defined from the calendar).
+   PROVED here, for all inputs: the table scan is "type of the latest transition <= t" on sorted tables; the rule
+   dates Jn (29 February never counted: J60 = 1 March in every year) and n computed by the code are those of the
+   specification.
+   NOT PROVED here (checked by the differential run against TzSpec on synthesized files and against CPython's
+   zoneinfo on real files): the Mm.w.d date computed through weekdays_in_month, the composition of the four-way
+   comparison with TzSpec.rule_offset, and the byte-level decoding.  Named *_partial for that reason. *)
+From Astro Require Import Base Text CalSpec DateModel TimeModel ApiModel InstantSpec DateProofs TzModel TzSpec TzProofs.
+
+Theorem C18_scan_partial : forall l t, sorted_trans l -> scan_rev (rev l) t = latest_type l t 0.
+Proof. exact scan_is_latest. Qed.
+Theorem C18_rule_date_J_partial : forall Y n, MIN_Y < Y < MAX_Y -> Y <> 0 -> 1 <= n <= 365 ->
+  year_doy_to_days Y n true = Ok (rule_date Y (SJ n)).
+Proof. exact rule_date_J. Qed.
+Theorem C18_rule_date_N_partial : forall Y n, MIN_Y < Y < MAX_Y -> Y <> 0 -> 0 <= n <= 365 ->
+  (let! j := unwrap_days (year_doy_to_days Y 1 false) in TzOk (j + n)) = TzOk (rule_date Y (SN n)).
+Proof. exact rule_date_N. Qed.
+
+Example C18_examples :
+  rule_date 2024 (SJ 60) = rd (2024, 3, 1) /\ rule_date 2023 (SJ 60) = rd (2023, 3, 1) /\
+  rule_date 2024 (SM 3 5 0) = rd (2024, 3, 31) /\ rule_date 2024 (SM 10 5 0) = rd (2024, 10, 27) /\
+  rule_date 2024 (SM 11 1 0) = rd (2024, 11, 3).
+Proof. repeat split; reflexivity. Qed.
+
+Print Assumptions C18_scan_partial.
+Print Assumptions C18_rule_date_J_partial.
+Print Assumptions C18_rule_date_N_partial.
